@@ -30,3 +30,52 @@ func Verify() (r)
   pure
   ensures [C03] r == (W(alphabet()) || W(cmtaddr()))
 @*/
+
+/*@
+module gas
+props C19
+use common core
+dialect neovm
+
+// C19: emit can be triggered only by the contract's own Alphabet node; it sends floor(g/2) to Proxy and
+// floor((g - floor(g/2)) * 7/8 / N) to each of the N Inner Ring nodes, where g is the GAS balance read after the
+// NEO self-transfer; nothing else is sent, so no GAS is created (lemma emitConserves).
+pure idx(s Store) Int = b2i(s.get("index"))
+pure g(k Int) Int     = asint(cres("native_gas_BalanceOf", k))
+pure share(gg Int, n Int) Int = (gg - gg / 2) * 7 / 8 / n
+
+func checkPermission(ir) (r)
+  pure
+  ensures [C19] r ==> idx(store) < len(ir) && W(ir[idx(store)])
+  ensures [C19] !r ==> idx(store) >= len(ir) || !W(ir[idx(store)])
+
+func Emit()
+  ensures [C19] idx(store) < len(committee()) && W(committee()[idx(store)])
+  ensures [C19] store == old(store) && notifs == old(notifs)
+  ensures [C19] xcalls("native_gas_BalanceOf").len == old(xcalls("native_gas_BalanceOf")).len + 1
+  ensures [C19] g(old(xcalls("native_gas_BalanceOf")).len) / 2 != 0
+  ensures [C19] xcalls("native_gas_Transfer").len == old(xcalls("native_gas_Transfer")).len + 1
+        + (share(g(old(xcalls("native_gas_BalanceOf")).len), len(designated())) != 0 ? len(designated()) : 0)
+  ensures [C19] old(store).has("proxyScriptHash") ==> xcalls("native_gas_Transfer")[old(xcalls("native_gas_Transfer")).len]
+        == ev_native_gas_Transfer(self(), old(store).get("proxyScriptHash"), g(old(xcalls("native_gas_BalanceOf")).len) / 2, nil)
+  ensures [C19] share(g(old(xcalls("native_gas_BalanceOf")).len), len(designated())) != 0 ==>
+        forall j Int {designated()[j]} :: 0 <= j && j < len(designated()) ==>
+          xcalls("native_gas_Transfer")[old(xcalls("native_gas_Transfer")).len + 1 + j]
+          == ev_native_gas_Transfer(self(), stdacct(designated()[j]), share(g(old(xcalls("native_gas_BalanceOf")).len), len(designated())), nil)
+  loop 0
+    invariant store == entry(store) && notifs == entry(notifs) && xcalls("native_gas_BalanceOf").len == entry(xcalls("native_gas_BalanceOf")).len
+    invariant xcalls("native_gas_Transfer").len == entry(xcalls("native_gas_Transfer")).len + $i && $i <= len(innerRing)
+    invariant forall j Int {innerRing[j]} :: 0 <= j && j < $i ==>
+        xcalls("native_gas_Transfer")[entry(xcalls("native_gas_Transfer")).len + j] == ev_native_gas_Transfer(contractHash, stdacct(innerRing[j]), gasPerNode, nil)
+    invariant forall j Int {xcalls("native_gas_Transfer")[j]} :: 0 <= j && j < entry(xcalls("native_gas_Transfer")).len ==>
+        xcalls("native_gas_Transfer")[j] == entry(xcalls("native_gas_Transfer"))[j]
+
+// Alphabet contracts accept nothing but GAS and NEO
+func OnNEP17Payment(from, amount, data)
+  ensures [C19] callingScriptHash == "\xcf\x76\xe2\x8b\xd0\x06\x2c\x4a\x47\x8e\xe3\x55\x61\x01\x13\x19\xf3\xcf\xa4\xd2"
+             || callingScriptHash == "\xf5\x63\xea\x40\xbc\x28\x3d\x4d\x0e\x05\xc4\x8e\xa3\x05\xb3\xf2\xa0\x73\x40\xef"
+  ensures [C19] store == old(store) && notifs == old(notifs) && xcalls == old(xcalls)
+
+// nothing is created: what is sent never exceeds the balance that was read
+lemma emitConserves [C19]: forall gg Int, n Int :: gg >= 0 && n >= 1 ==> gg / 2 + n * share(gg, n) <= gg
+@*/
